@@ -160,6 +160,10 @@ pub fn generate(seed: u64, idx: u64) -> Scenario {
                 steps += 1;
             }
         }
+        if rng.chance(15) {
+            // a didChange without content changes (a version bump only) is legal
+            s.change(&uri, vec![]);
+        }
         if rng.chance(150) {
             let m = *rng.pick(&METHODS);
             let t = s.text(&uri).cloned().unwrap_or_default();
